@@ -2,6 +2,7 @@ import BM.Props.C11
 import BM.Props.C12
 import BM.Proofs.Escape
 import BM.Props.C04
+import BM.Props.C07
 /-
   C20: re-sanitising sanitised output is a no-op.  Proved, clause by clause of the statement:
   * "added rel tokens are not repeated": the rel sub-passes are idempotent on values —
@@ -18,7 +19,7 @@ import BM.Props.C04
   finding `url-reprint-unstable`.  The property is checked end to end by the `idem` family.
 -/
 namespace BM.Props
-open BM BM.Html
+open BM BM.Html BM.Spec
 
 theorem addRelToken_idem (need : Bool) (tok v : Bytes) (hw : WsFree tok) :
     addRelToken need tok (addRelToken need tok v) = addRelToken need tok v := by
@@ -62,6 +63,165 @@ theorem escaped_text_stays_text (d : Bytes) : ∀ c ∈ escape d, c ≠ 60 :=
 theorem C20_strict (input : Bytes) :
     strictPolicy.sanitizeCore (strictPolicy.sanitizeCore input) = strictPolicy.sanitizeCore input :=
   C20_strict_idempotent input
+
+/-! ### whole-pipeline idempotence for plain, attribute-simple policies -/
+
+/-- a policy whose attribute handling is pure filtering: no URL checking (hence no link
+    hardening), no style rules, no forced crossorigin / sandbox -/
+structure AttrSimple (p : Policy) : Prop where
+  noUrl : p.requireParseableURLs = false
+  noFollow : p.requireNoFollow = false
+  noFollowFQ : p.requireNoFollowFullyQualifiedLinks = false
+  noReferrer : p.requireNoReferrer = false
+  noReferrerFQ : p.requireNoReferrerFullyQualifiedLinks = false
+  noBlank : p.addTargetBlankToFullyQualifiedLinks = false
+  noStyle : ∀ el, p.hasStylePolicies el = false
+  noCross : p.requireCrossOriginAnonymous = false
+  noSandbox : p.requireSandboxOnIFrame = none
+
+theorem filterAttr_nostyle (p : Policy) (el : Bytes) (aps : AttrRules) (a b : Attr)
+    (h : p.filterAttr el aps false a = some b) : b = a := by
+  unfold Policy.filterAttr at h
+  repeat' split at h
+  all_goals (simp at h)
+  all_goals (first | exact h.symm | (rename_i hst; simp at hst))
+
+theorem filterMap_eq_filter (p : Policy) (el : Bytes) (aps : AttrRules) (l : List Attr) :
+    l.filterMap (p.filterAttr el aps false) = l.filter fun a => (p.filterAttr el aps false a).isSome := by
+  induction l with
+  | nil => rfl
+  | cons a as ih =>
+    cases h : p.filterAttr el aps false a with
+    | none => simp [List.filterMap_cons, h, List.filter_cons, ih]
+    | some b =>
+      have := filterAttr_nostyle p el aps a b h
+      subst this
+      simp [List.filterMap_cons, h, List.filter_cons, ih]
+
+theorem simple_sanitizeAttrs (p : Policy) (hs : AttrSimple p) (el : Bytes) (attrs : List Attr) (aps : AttrRules) :
+    p.sanitizeAttrs el attrs aps = some (attrs.filter fun a => (p.filterAttr el aps false a).isSome) := by
+  unfold Policy.sanitizeAttrs
+  split
+  · rename_i h; simp [List.isEmpty_iff.mp h]
+  · simp only [hs.noStyle el, filterMap_eq_filter]
+    split
+    · rename_i h; simp [List.isEmpty_iff.mp h]
+    · unfold Policy.linkPasses Policy.forceSandbox Policy.forceCrossOrigin
+      simp [hs.noUrl, hs.noFollow, hs.noFollowFQ, hs.noReferrer, hs.noReferrerFQ, hs.noBlank, hs.noCross, hs.noSandbox]
+
+/-- cleaning already-cleaned attributes changes nothing -/
+theorem simple_cleanAttrs_idem (p : Policy) (hs : AttrSimple p) (t : Token) (aps : AttrRules) (attrs : List Attr)
+    (h : p.cleanAttrs t aps = some attrs) : p.cleanAttrs { t with attrs := attrs } aps = some attrs := by
+  unfold Policy.cleanAttrs at h ⊢
+  split at h
+  · simp at h; subst h; simp_all
+  · rw [simple_sanitizeAttrs p hs] at h
+    simp at h; subst h
+    simp only
+    split
+    · rename_i he; simp [List.isEmpty_iff.mp he]
+    · rw [simple_sanitizeAttrs p hs]
+      simp [List.filter_filter]
+
+/-- what a plain, attribute-simple policy writes is conforming for that policy -/
+theorem emit_conform {p : Policy} (hp : Plain p) (hs : AttrSimple p) {st : LoopState} {t : Token} (hwf : TokWF t)
+    {ws : List Write} (he : Emit p st t ws) :
+    ∃ toks : List Token, ws.map (·.data) = toks.map Token.render ∧ ∀ k ∈ toks, Conform p k := by
+  obtain ⟨toks, hr, hf⟩ := emit_toks hp hwf he
+  -- re-derive the facts `Conform` needs from the same case analysis
+  cases he with
+  | nothing => exact ⟨[], rfl, by simp⟩
+  | space _ =>
+    refine ⟨[⟨.text, [32], []⟩], by simp [render_space], ?_⟩
+    intro k hk; simp at hk; subst hk; exact ⟨by simp [SegOK], trivial⟩
+  | comment _ hc => rw [hp.noComments] at hc; cases hc
+  | openTag aps attrs htt haps hss hattrs hbare _ =>
+    have hnss : isScriptOrStyle t.data = false := by simpa [hp.noUnsafe] using hss
+    have hb : attrs ≠ [] ∨ p.allowNoAttrs t.data = true := by
+      cases attrs with
+      | nil => right; simpa using hbare
+      | cons _ _ => left; simp
+    have hidem := simple_cleanAttrs_idem p hs t aps attrs hattrs
+    simp at hr
+    have hk1 : toks.map Token.render = [({ t with attrs := attrs } : Token).render] := hr.symm
+    refine ⟨[{ t with attrs := attrs }], by simp, ?_⟩
+    intro k hk; simp at hk; subst hk
+    have hall := attrRulesFor_allows' haps
+    have hnr : isRawTagName t.data = false := by
+      cases h : isRawTagName t.data with
+      | false => rfl
+      | true => rw [hp.noRaw _ h] at hall; cases hall
+    rcases htt with h | h
+    · have hw : NameOK' t.data ∧ ∀ a ∈ t.attrs, AttrOK a := by
+        unfold TokWF at hwf; rw [h] at hwf; exact hwf
+      refine ⟨?_, ?_⟩
+      · unfold SegOK; simp only [h]
+        exact ⟨hw.1, hnr, allOK_cleanAttrs p t aps attrs hw.2 hattrs⟩
+      · simp only [h]; exact ⟨hnss, aps, haps, hidem, hb⟩
+    · have hw : NameOK' t.data ∧ ∀ a ∈ t.attrs, AttrOK a := by
+        unfold TokWF at hwf; rw [h] at hwf; exact hwf
+      refine ⟨?_, ?_⟩
+      · unfold SegOK; simp only [h]
+        exact ⟨hw.1, hnr, allOK_cleanAttrs p t aps attrs hw.2 hattrs⟩
+      · simp only [h]; exact ⟨hnss, aps, haps, hidem, hb⟩
+  | closeTag htt hss hall =>
+    have hw : NameOK' t.data ∧ t.attrs = [] := by
+      unfold TokWF at hwf; rw [htt] at hwf; exact hwf
+    have hnss : isScriptOrStyle t.data = false := by simpa [hp.noUnsafe] using hss
+    refine ⟨[t], by simp, ?_⟩
+    intro k hk; simp at hk; subst hk
+    refine ⟨by unfold SegOK; simp only [htt]; exact hw, ?_⟩
+    simp only [htt]
+    refine ⟨hnss, ?_⟩
+    unfold Policy.patternEl Policy.explicitEl
+    cases hc : p.elsAndAttrs.contains k.data with
+    | true => left; rfl
+    | false => right; simpa [hc] using hall
+  | text htt _ _ =>
+    refine ⟨[⟨.text, t.data, []⟩], by simp [Token.render, htt], ?_⟩
+    intro k hk; simp at hk; subst hk; exact ⟨by simp [SegOK], trivial⟩
+  | rawText _ hun _ => rw [hp.noUnsafe] at hun; cases hun
+
+theorem run_conform {p : Policy} (hp : Plain p) (hs : AttrSimple p) (ts : List Token) (hwf : ∀ t ∈ ts, TokWF t) :
+    ∀ st, ∃ toks : List Token, (p.run st ts).1.map (·.data) = toks.map Token.render ∧ ∀ k ∈ toks, Conform p k := by
+  induction ts with
+  | nil => intro st; exact ⟨[], by simp [Policy.run], by simp⟩
+  | cons t ts ih =>
+    intro st
+    unfold Policy.run
+    split
+    · exact ⟨[], by simp, by simp⟩
+    · rename_i st' ws hstep
+      obtain ⟨k1, hk1, hf1⟩ := emit_conform hp hs (hwf t (by simp)) (step_emit p st t st' ws hstep)
+      obtain ⟨k2, hk2, hf2⟩ := ih (fun x hx => hwf x (by simp [hx])) st'
+      refine ⟨k1 ++ k2, by simp [hk1, hk2], ?_⟩
+      intro k hk
+      simp only [List.mem_append] at hk
+      rcases hk with h | h
+      · exact hf1 k h
+      · exact hf2 k h
+
+/-- **C20 (byte level) for plain, attribute-simple policies**: sanitising the output again
+    returns it unchanged, for every input — escaping is not applied twice, kept tags are kept
+    as they are, nothing is re-ordered. -/
+theorem C20_simple (p : Policy) (hp : Plain p.ensureInit) (hs : AttrSimple p.ensureInit) (input : Bytes) :
+    p.sanitizeCore (p.sanitizeCore input) = p.sanitizeCore input := by
+  obtain ⟨toks, hr, hconf⟩ := run_conform hp hs (tokenize input) (tokenize_wf input) {}
+  have hb : p.sanitizeCore input = renderAll toks := by
+    unfold Policy.sanitizeCore Policy.sanitizeTokens
+    rw [hr, flatten_map_render]
+  rw [hb]
+  exact C07_bytes p toks hconf
+
+/-- non-vacuity: a policy with elements, attributes and a pattern rule that is plain and
+    attribute-simple -/
+example :
+    let p : Policy := { initialized := true, elsAndAttrs := [(b!"b", []), (b!"a", [(b!"title", [none])])],
+                        setOfElementsAllowedWithoutAttrs := [b!"b"] }
+    AttrSimple p.ensureInit := by
+  refine ⟨rfl, rfl, rfl, rfl, rfl, rfl, ?_, rfl, rfl⟩
+  intro el
+  simp [Policy.hasStylePolicies, Policy.ensureInit, Map.get?]
 
 example : addRelToken true b!"nofollow" (addRelToken true b!"nofollow" b!"author") = b!"author nofollow" := by decide
 
